@@ -57,6 +57,15 @@ fn any_step(steps: &[Step], f: &dyn Fn(&Step) -> bool) -> bool {
 pub fn trigger_holds(trigger: &str, sc: &Scenario) -> bool {
     match trigger {
         "always" => true,
+        "iterate_body_repartitions" => sc.steps.iter().any(|s| match s {
+            Step::Loop(_, l) if l.iterate => l.body.iter().any(|b| {
+                matches!(
+                    b,
+                    Step::Un(_, UnOp::Shuffle) | Step::Un(_, UnOp::Gb(..)) | Step::Un(_, UnOp::Gl(..)) | Step::Un(_, UnOp::Repl(_)) | Step::Un(_, UnOp::Win(..)) | Step::Bin(..)
+                )
+            }),
+            _ => false,
+        }),
         "forward_to_fewer_consumers" => any_step(&sc.steps, &|s| {
             matches!(s, Step::Un(_, UnOp::Repl(Repl::Limited(_))) | Step::Un(_, UnOp::Repl(Repl::Host)))
         }),
